@@ -23,13 +23,14 @@ def guarded(f):
 
 def templates():
     from bromelia.base import DiameterAVP
-    from bromelia.avps import OriginHostAVP, VendorIdAVP, SupportedVendorIdAVP, ProductNameAVP
+    from bromelia.avps import OriginHostAVP, VendorIdAVP, SupportedVendorIdAVP, ProductNameAVP, SessionIdAVP
     return {
         "h": lambda: OriginHostAVP("host"),                 # equal-valued AVPs of one class (distinct objects)
         "H": lambda: OriginHostAVP("host.example.com"),     # same class, other size (residue)
         "u": lambda: DiameterAVP(code=999999, vendor_id=10415, flags=0x80, data=b"xyz"),   # unknown
         "v": lambda: VendorIdAVP(10415),                     # its name is a substring of the next one's
         "s": lambda: SupportedVendorIdAVP(10415),
+        "S": lambda: SessionIdAVP(b"peer;1;2"),             # regenerated in place by a bulk origin update
     }
 
 
@@ -104,8 +105,9 @@ class World:
                 errs.append("name %s refers to an AVP that is not listed" % k)
         for i, a in enumerate(listed):
             n = sum(1 for v in named.values() if v is a)
-            if n != 1:
-                errs.append("listed AVP #%d has %d names" % (i, n))
+            occ = sum(1 for b in listed if b is a)           # the same object may be listed more than once (aliasing)
+            if n != occ:
+                errs.append("listed AVP #%d (listed %dx) has %d name(s)" % (i, occ, n))
         size = len(m.dump())
         if m.header.get_length() != size:
             errs.append("Message Length %d != serialised size %d" % (m.header.get_length(), size))
@@ -125,9 +127,16 @@ class World:
     def order_ok(self, before):
         """relative order of the AVPs that remain is preserved"""
         now = [id(a) for a in self.m.avps]
-        old = [i for i in before if i in set(now)]
-        kept = [i for i in now if i in set(before)]
-        return old == kept
+        budget = {}
+        for i in before:
+            budget[i] = budget.get(i, 0) + 1
+        kept = []
+        for i in now:                                       # occurrences beyond those present before were added
+            if budget.get(i, 0) > 0:
+                budget[i] -= 1
+                kept.append(i)
+        it = iter(before)
+        return all(any(x == y for y in it) for x in kept)          # kept is a subsequence of before
 
 
 def do_op(w, op, T):
@@ -176,6 +185,30 @@ def do_op(w, op, T):
         return ["R"], res
     if kind == "refresh":
         return ["R"], guarded(m.refresh)
+    if kind == "alias":
+        # the object listed at position op[1] is appended once more (outside the model: spec only)
+        if op[1] >= len(m.avps):
+            return ["R"], "ok"
+        o = m.avps[op[1]]
+        w.aliased = True
+        return ["A"] + w.obj_tokens(o), guarded(lambda: m.append(o))
+    if kind == "bulk":
+        # update_avps: per-key update_avp, Session-Id regenerated in place when the origin changes, final refresh
+        toks = []
+        before = {k: v for k, v in m.__dict__.items() if "_avp" in k and k != "_avps"}
+        sid = before.get("session_id_avp")
+        sid_data = sid.data if sid is not None else None
+        res = guarded(lambda: m.update_avps(dict(op[1])))
+        for key, _val in op[1]:
+            name = key + "_avp"
+            new = m.__dict__.get(name)
+            if name in before and new is not None and new is not before[name]:
+                toks += ["U", name, "0"] + w.obj_tokens(new)
+        if sid is not None and m.__dict__.get("session_id_avp") is sid and sid.data != sid_data:
+            toks += ["Z", str(w.oid(sid)), str(w.size_of(sid))]
+        else:
+            toks += ["R"]
+        return toks, res
     raise KeyError(kind)
 
 
@@ -190,45 +223,69 @@ def op_alphabet(small):
     ops += [("cleanup",), ("refresh",), ("setavps", ("h", "h")), ("extend", ("h", "v")), ("setitem", 0, "H"), ("setitem", 1, "u"),
             ("updatekey", ("origin_host_avp", 0), ("renamed_avp", 0)), ("updatekey", ("origin_host_avp", 1), ("origin_host_avp", 0)),
             ("updateavp", ("origin_host_avp", 0), "other.host"), ("updateavp", ("origin_host_avp", 1), "o"),
-            ("updateavp", ("vendor_id_avp", 0), 5)]
+            ("updateavp", ("vendor_id_avp", 0), 5),
+            ("append", "S"), ("bulk", (("origin_host", "a"),)), ("bulk", (("origin_host", "relay.example.org"), ("vendor_id", 7))),
+            ("bulk", (("vendor_id", 9),))]
     if small:
-        ops = [o for o in ops if o[0] not in ("extend",)]
+        ops = [o for o in ops if o[0] not in ("extend", "bulk") and o != ("append", "S")]
+    else:
+        ops += [("alias", 0), ("alias", 1)]
     return ops
 
 
 UNIVERSE = ["origin_host_avp", "origin_host_avp__1", "origin_host_avp__2", "unknown_avp", "vendor_id_avp", "supported_vendor_id_avp",
-            "renamed_avp", "missing_avp", "origin_host", "origin_host__1", "vendor_id"]
+            "renamed_avp", "missing_avp", "origin_host", "origin_host__1", "vendor_id", "session_id_avp", "session_id"]
 
 
 def run_sequence(seq, typed=False):
     """returns (driver line, impl states, spec errors per step)"""
     T = templates()
     w = World(typed)
-    impl, spec = [], []
+    impl, spec, groups = [], [], []
     for op in seq:
         before = [id(a) for a in w.m.avps]
+        before_objs = list(w.m.avps)
+        target = w.m.__dict__.get(join_key(*op[1])) if op[0] == "updateavp" else None
         toks, res = do_op(w, op, T)
         w.ops += toks
+        groups.append(sum(1 for t in toks if t in ("A", "E", "P", "C", "S", "I", "K", "U", "R", "Z")))
         impl.append(w.observe())
         errs = w.coherence_errors(UNIVERSE)
         if not w.order_ok(before):
             errs.append("relative order of the remaining AVPs changed")
+        if op[0] == "updateavp" and res == "ok" and target is not None and not getattr(w, "aliased", False):
+            # the object the name referred to is the one replaced, at its position; all other positions keep their object
+            new = w.m.__dict__.get(join_key(*op[1]))
+            now = list(w.m.avps)
+            pos = [i for i, a in enumerate(before_objs) if a is target]
+            if len(now) != len(before_objs) or len(pos) != 1 or now[pos[0]] is not new or \
+                    any(a is not b for i, (a, b) in enumerate(zip(now, before_objs)) if i != pos[0]):
+                errs.append("update_avp(%s) did not replace the named object in place (by identity)" % join_key(*op[1]))
         spec.append((res, errs))
-    return "cont " + " ".join(w.ops), impl, spec, w.n_init
+    return "cont " + " ".join(w.ops), impl, spec, w.n_init, getattr(w, "aliased", False), groups
 
 
 def explore(chk, seqs, tag, typed=False):
     lines, meta = [], []
     for seq in seqs:
-        line, impl, spec, n_init = run_sequence(seq, typed)
-        lines.append(line)
-        meta.append((seq, impl, spec, n_init))
+        line, impl, spec, n_init, aliased, groups = run_sequence(seq, typed)
+        lines.append("cont R" if aliased else line)
+        meta.append((seq, impl, spec, n_init, aliased, groups))
     out = core.run_driver(lines)
-    for (seq, impl, spec, n_init), o in zip(meta, out):
+    for (seq, impl, spec, n_init, aliased, groups), o in zip(meta, out):
         inp = {"op": "container", "typed": typed, "ops": [list(map(str, s)) for s in seq]}
         chk.case(inp, kind="seq:%s:len%d" % (tag, len(seq)))
         model = o.split(" | ")[n_init:] if o else []
-        if model != impl:
+        if not aliased:
+            # one abstract operation may be several model operations (bulk update): take the state after the last one
+            picked, at = [], 0
+            for g in groups:
+                at += g
+                picked.append(model[at - 1] if 0 < at <= len(model) else None)
+            model = picked
+        if aliased:
+            chk.count("aliased-sequence:spec-only")
+        elif model != impl:
             k = next((i for i, (a, b) in enumerate(zip(model, impl)) if a != b), min(len(model), len(impl)))
             chk.corr_break("container", inp, {"step": k, "state": impl[k] if k < len(impl) else None},
                            {"step": k, "state": model[k] if k < len(model) else None})
@@ -252,7 +309,7 @@ def run(chk):
                 "messages; after EVERY step the real object is compared with the model state and checked against the coherence "
                 "specification (names<->listed objects by identity, has_avp for 11 names incl. short forms, order, length = size). "
                 "distinct = distinct operation sequences.")
-    chk.trusted += ["correspondence harness props/c11.py", "aliasing (the same AVP object listed twice) is outside the model and not generated",
+    chk.trusted += ["correspondence harness props/c11.py", "aliasing (the same AVP object listed twice) is outside the model (freshness hypothesis of the theorem): such sequences are generated and checked against the coherence specification only (names per object = occurrences in the list)",
                     "GroupedType uses the same scheme; only DiameterMessage is exercised"]
     full = op_alphabet(False)
     small = op_alphabet(True)
